@@ -41,17 +41,22 @@ def revTable {M n : Nat} (targets : Fin M → Fin n) (mapAtoms : Fin n → Fin n
     let atomDone := mapAtoms (targets i)
     if atomDone = targets i then (fun d => if d = atomDone then some i else rev d) else rev) (fun _ => none)
 
-/-- loops over `atom_other, j, k, l, m` for one position `i` of `atom_list` (`ri = atom_list_reverse[atom_done]`) -/
+/-- loops over `j, k, l, m` for one position `i` of `atom_list` and one `atom_other = o`
+(`ri = atom_list_reverse[atom_done]`): `fc2_todo[j][k] += r_cart[l][j] * r_cart[m][k] * fc2_done[l][m]` -/
+def distributeOther {M Mr n nrot : Nat} (fcIdx : Fin M → Fin Mr) (R : Fin nrot → Mat3 α)
+    (perms : Fin nrot → Fin n → Fin n) (i ri : Fin M) (sym : Fin nrot) (o : Fin n) (fc : Rows Mr n α) : Rows Mr n α :=
+  (List.finRange 3).foldl (fun fc j =>
+    (List.finRange 3).foldl (fun fc k =>
+      (List.finRange 3).foldl (fun fc l =>
+        (List.finRange 3).foldl (fun fc m =>
+          setEntry fc (fcIdx i) o j k
+            (fc (fcIdx i) o j k + R sym l j * R sym m k * fc (fcIdx ri) (perms sym o) l m))
+        fc) fc) fc) fc
+
+/-- loop over `atom_other` -/
 def distributeBody {M Mr n nrot : Nat} (fcIdx : Fin M → Fin Mr) (R : Fin nrot → Mat3 α)
     (perms : Fin nrot → Fin n → Fin n) (i ri : Fin M) (sym : Fin nrot) (fc : Rows Mr n α) : Rows Mr n α :=
-  (List.finRange n).foldl (fun fc o =>
-    (List.finRange 3).foldl (fun fc j =>
-      (List.finRange 3).foldl (fun fc k =>
-        (List.finRange 3).foldl (fun fc l =>
-          (List.finRange 3).foldl (fun fc m =>
-            setEntry fc (fcIdx i) o j k
-              (fc (fcIdx i) o j k + R sym l j * R sym m k * fc (fcIdx ri) (perms sym o) l m))
-          fc) fc) fc) fc) fc
+  (List.finRange n).foldl (fun fc o => distributeOther fcIdx R perms i ri sym o fc) fc
 
 /-- `distribute_fc2`, literally -/
 def distributeLit {M Mr n nrot : Nat} (targets : Fin M → Fin n) (fcIdx : Fin M → Fin Mr)
@@ -68,7 +73,43 @@ def distributeLit {M Mr n nrot : Nat} (targets : Fin M → Fin n) (fcIdx : Fin M
       | none => none
       | some ri => some (distributeBody fcIdx R perms i ri sym fc)) fc
 
-/-- staged evaluation for the driver: the array is re-materialised after every position of `atom_list` -/
+/-! staged evaluation for the driver: the same loops on a materialised array with in-place `set`
+(a function-valued state would re-evaluate every `+=` on every later read) -/
+
+def Tab.set {n : Nat} {β : Type} (A : Tab n β) (i : Fin n) (v : β) : Tab n β :=
+  ⟨A.1.set i.1 v (by rw [A.2]; exact i.2), by rw [Array.size_set]; exact A.2⟩
+
+theorem Tab.read_set {n : Nat} {β : Type} (A : Tab n β) (i : Fin n) (v : β) (i' : Fin n) :
+    (A.set i v).read i' = if i' = i then v else A.read i' := by
+  simp only [Tab.set, Tab.read, Array.getElem_set]
+  by_cases h : i' = i
+  · simp [h]
+  · have : ¬ i.1 = i'.1 := fun e => h (Fin.ext e.symm)
+    simp [h, this]
+
+/-- `fc2[r * num_pos + o][j][k] = v` on the materialised array -/
+def setEntryT {Mr n : Nat} (A : Tab4 Mr n 3 3 α) (r : Fin Mr) (o : Fin n) (j k : Fin 3) (v : α) : Tab4 Mr n 3 3 α :=
+  let Ar := Tab.read A r
+  let Aro := Tab.read Ar o
+  let Aroj := Tab.read Aro j
+  Tab.set A r (Tab.set Ar o (Tab.set Aro j (Tab.set Aroj k v)))
+
+def distributeOtherT {M Mr n nrot : Nat} (fcIdx : Fin M → Fin Mr) (R : Fin nrot → Mat3 α)
+    (perms : Fin nrot → Fin n → Fin n) (i ri : Fin M) (sym : Fin nrot) (o : Fin n) (fc : Tab4 Mr n 3 3 α) :
+    Tab4 Mr n 3 3 α :=
+  (List.finRange 3).foldl (fun (fc : Tab4 Mr n 3 3 α) j =>
+    (List.finRange 3).foldl (fun (fc : Tab4 Mr n 3 3 α) k =>
+      (List.finRange 3).foldl (fun (fc : Tab4 Mr n 3 3 α) l =>
+        (List.finRange 3).foldl (fun (fc : Tab4 Mr n 3 3 α) m =>
+          setEntryT fc (fcIdx i) o j k
+            (fc.read (fcIdx i) o j k + R sym l j * R sym m k * fc.read (fcIdx ri) (perms sym o) l m))
+        fc) fc) fc) fc
+
+def distributeBodyT {M Mr n nrot : Nat} (fcIdx : Fin M → Fin Mr) (R : Fin nrot → Mat3 α)
+    (perms : Fin nrot → Fin n → Fin n) (i ri : Fin M) (sym : Fin nrot) (fc : Tab4 Mr n 3 3 α) : Tab4 Mr n 3 3 α :=
+  (List.finRange n).foldl (fun (fc : Tab4 Mr n 3 3 α) o => distributeOtherT fcIdx R perms i ri sym o fc) fc
+
+/-- staged evaluation of the whole kernel -/
 def distributeLitT {M Mr n nrot : Nat} (targets : Fin M → Fin n) (fcIdx : Fin M → Fin Mr)
     (R : Fin nrot → Mat3 α) (perms : Fin nrot → Fin n → Fin n) (mapSyms : Fin n → Fin nrot)
     (fc : Tab4 Mr n 3 3 α) : Option (Tab4 Mr n 3 3 α) :=
@@ -82,7 +123,7 @@ def distributeLitT {M Mr n nrot : Nat} (targets : Fin M → Fin n) (fcIdx : Fin 
     if atomTodo = atomDone then some fc
     else match rev.read atomDone with
       | none => none
-      | some ri => some (tab4 (distributeBody fcIdx R perms i ri sym fc.read))) fc
+      | some ri => some (distributeBodyT fcIdx R perms i ri sym fc)) fc
 
 end
 
